@@ -515,7 +515,15 @@ fn execute(case: &Case, plan: &[Fault], heal_after_first_failure: bool) -> RunOu
                     if let Some(st) = hs[*h].as_ref() {
                         known.remove(&st.path);
                     }
-                    if is_err && set_len_carry_on && !fired.is_empty() && hs[*h].as_ref().map(|st| st.content.is_some() && st.alt.is_none()).unwrap_or(false) {
+                    // (only if the failed call left a CONSISTENT file - judged by the independent checker:
+                    // a resize that failed half-way, e.g. after freeing the tail of the chain and before
+                    // rewriting the entry, leaves the stream pointing at released space; nothing is
+                    // promised about such an object and it is given up below like in the other workloads)
+                    let consistent = |lib: &Lib| {
+                        let p = crate::imgck::check(&lib.disk.snapshot());
+                        p.fatal.is_none() && !p.violations.iter().any(|v| v.rule != "R5.minifat-short")
+                    };
+                    if is_err && set_len_carry_on && !fired.is_empty() && hs[*h].as_ref().map(|st| st.content.is_some() && st.alt.is_none()).unwrap_or(false) && consistent(&lib) {
                         // not retried: what the handle's writes accepted is still owed by the next
                         // Ok flush, with the old or the new length (nothing promises that a failed
                         // call is atomic); the byte-level image rules stand down for this run
@@ -683,7 +691,7 @@ fn execute(case: &Case, plan: &[Fault], heal_after_first_failure: bool) -> RunOu
                                         l2.budget_base = 400_000;
                                         match l2.exec(&Op::ReadWhole(st.path.clone())) {
                                             Res::Bytes(b2) => {
-                                                if &b2 != want {
+                                                if &b2 != want && st.alt.as_ref() != Some(&b2) {
                                                     let first = b2.iter().zip(want.iter()).position(|(x, y)| x != y);
                                                     out.violation = Some((
                                                         "not-in-file-after-ok-flush".into(),
